@@ -124,6 +124,8 @@ def enc_op(op):
         return 'A %d %d %s' % (op[1], op[2], enc_val(op[3]))
     if op[0] == 'TS':
         return 'S %d %s' % (op[1], enc_kw(op[2]))
+    if op[0] == 'TRA':          # tx assignment, rollback, begin, assignment through the same tx instance, commit = the 2nd one
+        return 'A %d %d %s' % (op[1], op[4], enc_val(op[5]))
     if op[0] in SKIP_OPS:
         return '%s %s' % (op[0], ' '.join(str(x) for x in op[1:]))
     if op[0] == 'C':
@@ -380,6 +382,28 @@ def run_case(case, oracle=None):
                     else:
                         target = (d, op[1])
                         setattr(objs[target], colname(op[2]), op[3])
+                elif k == 'TRA':
+                    # an assignment through a transaction is rolled back; the transaction begins again and the SAME
+                    # transaction-side instance is assigned to and committed: the version must hold the row's real state
+                    if (d, op[1]) not in objs:
+                        out = 'nohandle'
+                    else:
+                        target = (d, op[1])
+                        t = conns[d].transaction()
+                        try:
+                            mt = cls.get(rid(d, op[1]), connection=t)
+                            setattr(mt, colname(op[2]), op[3])
+                            t.rollback()
+                            t.begin()
+                            setattr(mt, colname(op[4]), op[5])
+                            t.commit(close=True)
+                        except Exception:
+                            t.rollback()
+                            t.begin()
+                            t.commit(close=True)
+                            raise
+                        if not case.get('noguard'):
+                            objs[target] = cls.get(rid(*target), **kwconn(d))
                 elif k in ('T', 'TS'):
                     # the update is made through a transaction (its own instance of the row) and committed; the instance the
                     # harness holds on the plain connection must follow
@@ -553,7 +577,11 @@ def gen_case(rng, clean, mode='mem'):
         if txmix and rng.random() < 0.35:
             # the update goes through a transaction: committed (model: an ordinary update) or rolled back (model: nothing)
             rr = rng.random()
-            if rr < 0.5:
+            if rr < 0.15:
+                ops.append((d, ('TRA', m, rng.randint(0, NCOLS - 1), gen_val(rng, 0.0),
+                                rng.randint(0, NCOLS - 1), gen_val(rng, 0.0))))
+                nv[d] += 1
+            elif rr < 0.5:
                 ops.append((d, ('T', m, rng.randint(0, NCOLS - 1), gen_val(rng, 0.0))))
                 nv[d] += 1
             elif rr < 0.8:
